@@ -234,7 +234,7 @@ def check_escaping(ctx):
     problems = []
     if not (isinstance(base, ast.Name) and base.id == e.params[0]):
       problems.append("the chain does not start from the text parameter")
-    for c_, ent in (("&", "&amp;"), ("<", "&lt;")):
+    for c_, ent in (("&", "&amp;"), ("<", "&lt;"), (">", "&gt;")):   # '>' too: an unescaped `-->` in the text would be read as a timing line
       if (c_, ent) not in pairs:
         problems.append(f"{c_!r} is not replaced by {ent!r}")
     for i, (o, nw) in enumerate(pairs):
@@ -363,6 +363,54 @@ def check_numbering_header(ctx):
     ctx.check(ok, "GUARD", f"{q}|refuses begin >= end", ctx.where(g.module, g.node), "raises when end <= begin instead of printing an invalid cue", f"{g.short} no longer refuses a cue whose end is not after its begin")
 
 
+def check_line_position(ctx):
+  """FIN-line: the `line` cue setting is the region's top edge for displayAlign=before, its bottom
+  edge for after and its vertical centre for center, each with the matching line alignment; evaluated
+  over a grid of origins and heights."""
+  from ..rules import fineval
+  ix = ctx.ix
+  f = ix.func("ttconv.vtt.writer:VttContext.process_p")
+  ctx.unit(f.module)
+  sites = [c for c in own_nodes(f.node) if isinstance(c, ast.Call) and isinstance(c.func, ast.Attribute) and c.func.attr == "set_line"]
+  if not sites:
+    raise AnalysisError(f"{f.qualname}: no set_line call found")
+  recv = unparse(sites[0].func.value)
+  # the statement (if-chain) that holds every set_line call
+  top = None
+  for st in own_nodes(f.node):
+    if isinstance(st, ast.If) and all(any(x is c for x in ast.walk(st)) for c in sites):
+      top = st      # innermost such if is found last in pre-order? keep the smallest
+  cands = [st for st in own_nodes(f.node) if isinstance(st, ast.If) and all(any(x is c for x in ast.walk(st)) for c in sites)]
+  top = min(cands, key=lambda st: len(list(ast.walk(st)))) if cands else None
+  if top is None:
+    raise AnalysisError(f"{f.qualname}: the display-align dispatch that sets the cue line was not found")
+  # locals holding the region's displayAlign / position / extent
+  roles = {}
+  for st in own_nodes(f.node):
+    if isinstance(st, (ast.Assign, ast.AnnAssign)) and isinstance(getattr(st, "value", None), ast.Call) and isinstance(st.value.func, ast.Attribute) and st.value.func.attr == "get_style" and st.value.args:
+      tgt = st.targets[0] if isinstance(st, ast.Assign) else st.target
+      if isinstance(tgt, ast.Name):
+        roles[unparse(st.value.args[0]).split(".")[-1]] = tgt.id
+  if not {"DisplayAlign", "Position", "Extent"} <= set(roles):
+    raise AnalysisError(f"{f.qualname}: locals for DisplayAlign / Position / Extent not found ({sorted(roles)})")
+  da, pos, ext = roles["DisplayAlign"], roles["Position"], roles["Extent"]
+  body = match.replace_exprs([top], {f"{pos}.v_offset.value": "__y", f"{ext}.height.value": "__h"})
+  ce = ConstEval(ix)
+  dat = ix.cls("ttconv.style_properties:DisplayAlignType")
+  wrong, n = [], 0
+  for mname, _ in ix.enum_members(dat):
+    member = ce.ev(f.module, ast.parse(f"DisplayAlignType.{mname}", mode="eval").body)
+    for y, h in ((0, 10), (10, 20), (35, 30), (80, 15)):
+      eff = fineval.collect(ix, f, body, {da: member, "__y": y, "__h": h}, recv)
+      lines = [a[0] for name, a, _ in eff.calls if name == "set_line" and a]
+      aligns = [str(a[0]).split(".")[-1].split(":")[0] for name, a, _ in eff.calls if name == "set_align" and a]
+      n += 1
+      want = {"before": (round(y), "start"), "after": (round(y + h), "end"), "center": (round(y + h / 2), "center")}[mname]
+      if lines != [want[0]] or aligns != [want[1]]:
+        wrong.append(f"displayAlign={mname}, region top {y}%, height {h}%: line {lines} align {aligns}, expected line {want[0]} align {want[1]}")
+  ctx.check(not wrong, "FIN-line", f"{f.qualname}|cue line position follows the region", ctx.where(f.module, top), f"{n} (displayAlign, origin, height) combinations", "; ".join(wrong[:3]))
+
+
 def run(ctx):
   check_tag_pairing(ctx, "ttconv.srt.writer:SrtContext.append_element", wrapper_test="self._text_formatting")
   check_tag_pairing(ctx, "ttconv.vtt.writer:VttContext.process_inline_element")
@@ -370,6 +418,7 @@ def run(ctx):
   check_supported(ctx)
   check_escaping(ctx)
   check_numbering_header(ctx)
+  check_line_position(ctx)
   npre = 0
   for mn in common.ISD_FILTERS:
     for g in ctx.ix.funcs_in(mn):
